@@ -207,8 +207,14 @@ def _asm_case(args):
         except BaseException as e:  # noqa: BLE001
             obs["outcome"] = f"raw:{type(e).__name__}" + (":did-not-terminate-in-60s" if alarm.fired else "")
             msg = str(e)[:200]
+        r = None
         if obs["outcome"] == "ok":
-            r = Reader(out)
+            try:
+                r = Reader(out)
+            except BaseException as e:  # noqa: BLE001      the assembler reported success but its output does not load
+                obs["outcome"] = "output-unreadable"
+                msg = f"{type(e).__name__}: {str(e)[:200]}"
+        if r is not None:
             words = dict(r.memory)
             for s, e in r.zeros_boundaries:
                 if e - s <= 5000:
